@@ -382,6 +382,19 @@ def rl_validate(run, runs, label):
     def one(ch):
         return validate_runs(run, RL, "RecordLogTrace", "RecordLogTrace.cfg", ch, vocab, label, keep_name=label.lower(),
                              describe=rl_describe, timeout=2400, heap="3g", drift_ops=("rconform", "rlayout"))
+    # Pass 1 decides the property: only the case and its rresult line (a code change that also moves the
+    # layout must not drown the property's verdict in drift).  Pass 2 replays the full cases for the
+    # model-conformance lines; too much drift there without any violation is the machinery's problem.
+    def core(r):
+        return [ln for ln in r if json.loads(ln).get("op") not in ("rconform", "rlayout")]
+
+    def one_core(ch):
+        return validate_runs(run, RL, "RecordLogTrace", "RecordLogTrace.cfg", [core(r) for r in ch], vocab, label,
+                             keep_name=label.lower(), describe=rl_describe, timeout=2400, heap="3g")
+    res1 = parallel_tlc([(i, (lambda c=ch: one_core(c))) for i, ch in enumerate(chunks) if ch], nproc=nproc)
+    rej1 = sum(r[2] for r in res1.values())
+    if rej1:
+        return sum(r[0] for r in res1.values()), sum(r[1] for r in res1.values()), rej1
     res = parallel_tlc([(i, (lambda c=ch: one(c))) for i, ch in enumerate(chunks) if ch], nproc=nproc)
     acc = sum(r[0] for r in res.values())
     events = sum(r[1] for r in res.values())
